@@ -448,6 +448,18 @@ class StructGen:
             "universes": unis,
             "tag": rng.randrange(6),
         }
+        shares = self.__dict__.setdefault("shares", [])
+        if shares and rng.random() < 0.25:
+            # pass the list object an earlier construction was given
+            key, labels = rng.choice(shares)
+            if all(l in view.snap for l in labels):
+                op["universes"] = list(labels)
+                op["share"] = key
+                return op
+        if rng.random() < 0.3:
+            op["share"] = f"s{len(shares)}"
+            shares.append((op["share"], list(unis)))
+            return op
         self.arg_kind(rng, op)
         return op
 
